@@ -181,7 +181,7 @@ func runC05(c *vc.Ctx) error {
 	c.Ev.Rule = "Histories: seeded random sequences of wal API calls as a raft node issues them (Create; Save with a new tail / an overwriting suffix of higher term above the commit index / commit-only hard state / term-vote change; SaveSnapshot at or below commit or ahead of the log; Sync; ReleaseLockTo; one-pass PurgeFile; ChangeFsyncFlag; Close+Open+ReadAll), " +
 		"SegmentSizeBytes 4 KiB and 64 KiB, both optimizedFsync settings, entry payloads around 512 B sectors, 4 KiB pages, the 128 KiB page-writer buffer and the 1 MiB marshal buffers. After every call (and at the verifhook points inside Save/cut when present) the directory is imaged. " +
 		"Each image is reopened like node/raft.go does (ValidSnapshotEntries -> newest marker, Verify, Open, ReadAll, on error Close+Repair+retry) as is (kill image, S = records of calls up to the last flush point) and in fault variants of the region written since the last fdatasync point before the call, found by diffing with the image taken there (S = records durable at that point): " +
-		"file ends at byte offset x (trunc-eof), zero-filled from sector boundary / byte offset (zero-sector, trunc-zero), windows of <=4 sectors where a later sector reached disk and an earlier did not (sector-subset); single bit flips in fully synced images (any prefix admissible, altered data never). " +
+		"file ends at byte offset x (trunc-eof), zero-filled from sector boundary / byte offset (zero-sector, trunc-zero), windows of <=4 sectors where a later sector reached disk and an earlier did not (sector-subset), the first >= 4 KiB of the unsynced write missing while the rest reached disk (zero-gap; continued by handing over exactly the first lost records again, Sync, Close, reopen); single bit flips in fully synced images (any prefix admissible, altered data never). " +
 		"evaluations = reopen executions judged. A fault image is non-trivial when the fault position (cut offset, first missing sector, flipped bit) lies strictly inside a physical record frame; its fingerprint is (history, image ordinal, fault kind, type of the record hit, part of the record: len field / header / payload / padding / flipped field). " +
 		"distinct_nontrivial = number of distinct fingerprints (each stands for >= 1 distinct image; the raw number of inside-record images is images_cut_inside_record)."
 	c.Ev.Assume("Power loss is modelled by images: bytes written since the last fdatasync point may be missing sector-wise; whether fdatasync is really issued is not observable (optimizedFsync skips it on purpose for entries and snapshot markers; there only term/vote changes, Sync and Close count as durable points and the torn region spans several calls).")
